@@ -66,6 +66,9 @@ type c11End struct {
 	l    *c11Link
 	side int
 	conn *c11Conn
+	// onReset (optional) runs after the link was closed by Reset: a connection whose teardown is
+	// complete when Reset returns (see c11ConnectSyncTeardown)
+	onReset func()
 }
 
 func (e *c11End) Read(p []byte) (int, error) {
@@ -96,8 +99,14 @@ func (e *c11End) Write(p []byte) (int, error) {
 	l.cond.Broadcast()
 	return len(p), nil
 }
-func (e *c11End) Close() error                     { e.l.close(); return nil }
-func (e *c11End) Reset() error                     { e.l.close(); return nil }
+func (e *c11End) Close() error { e.l.close(); return nil }
+func (e *c11End) Reset() error {
+	e.l.close()
+	if e.onReset != nil {
+		e.onReset()
+	}
+	return nil
+}
 func (e *c11End) Conn() network.Conn               { return e.conn }
 func (e *c11End) Protocol() libp2pproto.ID         { return protocol.IdenaProtocol }
 func (e *c11End) SetDeadline(time.Time) error      { return nil }
@@ -189,9 +198,24 @@ func c11NewNode(t *testing.T, r *verifsim.Replica, name string) *c11Node {
 
 // c11Connect does what runPeer does on both sides of a fresh stream: new peer object, the real
 // handshake, registration, the peer's writer and the listening loop.
-func c11Connect(a, b *c11Node) (*c11Link, error) {
+func c11Connect(a, b *c11Node) (*c11Link, error) { return c11ConnectOpt(a, b, false) }
+
+// c11ConnectSyncTeardown: as c11Connect, but when node a resets the stream (BanPeer), peer b is
+// unregistered from a's handler before Reset returns. With the plain fake the unregistration is
+// done by a's listening goroutine some microseconds later; the real fast sync asks for the rest
+// of the batch immediately after the ban, may still find the banned peer registered, send the
+// request into the closed stream and then sit in processBatch's 20 s wall-clock timeout. Used
+// by the hostile-server cases, where a ban is the expected outcome.
+func c11ConnectSyncTeardown(a, b *c11Node) (*c11Link, error) { return c11ConnectOpt(a, b, true) }
+
+func c11ConnectOpt(a, b *c11Node, syncTeardown bool) (*c11Link, error) {
 	l := c11NewLink()
-	pa := a.h.VerifNewPeer(&c11End{l: l, side: 0, conn: &c11Conn{id: b.id}})
+	ea := &c11End{l: l, side: 0, conn: &c11Conn{id: b.id}}
+	if syncTeardown {
+		ah, bid := a.h, b.id
+		ea.onReset = func() { ah.VerifUnregister(bid) }
+	}
+	pa := a.h.VerifNewPeer(ea)
 	pb := b.h.VerifNewPeer(&c11End{l: l, side: 1, conn: &c11Conn{id: a.id}})
 	errs := make(chan error, 2)
 	go func() {
